@@ -426,6 +426,7 @@ func runC20(c *Ctx) {
 					// by its number, in whatever notation
 					if m := c20number.FindString(*resp.Level); m != "" {
 						if n, err := strconv.Atoi(m); err == nil && n >= -128 && n <= 127 && (n < int(zapcore.DebugLevel) || n > int(zapcore.FatalLevel)) {
+							c.R.Probe("a response reported a level without a name")
 							cls, named = 1, zapcore.Level(n)
 						}
 					}
